@@ -3,6 +3,7 @@
 # evidence files against the schema.  Usage: tools/runall.sh [quick|thorough]
 cd "$(dirname "$0")/.." || exit 2
 TIER=${1:-quick}
+mkdir -p .work
 rc=0
 for id in $(python3 -c "import json;print(' '.join(c['property_id'] for c in json.load(open('MANIFEST.json'))['checks']))"); do
   start=$(date +%s)
